@@ -139,7 +139,7 @@ def run(pid, tier, programs=None, phases=()):
     known = [k for k in C.load_known().get("findings", []) if k.get("property") == pid]
     with C.Lock():
         lean_ok, names = C.lean_phase(res, pid, gen_fn=regen_for(pid), thorough_modules=["Cuckoo.Model.Proto"],
-                                      extra_props={"C01": ["C01Conc", "C01Red", "C01Sync", "C01Lin", "C01Sched"], "C03": ["C01Red", "C01Sync", "C03Frame"], "C04": ["C04Live", "C01Sync"],
+                                      extra_props={"C01": ["C01Conc", "C01Red", "C01Sync", "C01Lin", "C01Sched"], "C03": ["C01Red", "C01Sync", "C03Frame", "C03Comm"], "C04": ["C04Live", "C01Sync"],
                                                    "C06": ["C06Conc", "C01Red", "C01Sync"]}.get(pid, []))
     if pid == "C03":
         tsan_runs(res, tier, known)
@@ -156,6 +156,11 @@ def run(pid, tier, programs=None, phases=()):
         res.add_broken("K3(i): %d recorded synchronisation trace(s) are rejected by the Lean protocol model Cuckoo.Proto.accept "
                        "by rule L of Model/ProtoLive.lean or by rule T (two-phase holds) of Model/Fine.lean (the code no longer follows the protocol the theorems are about)" % len(out["rejects"]),
                        json.dumps(out["rejects"][:3]))
+    sm = out.get("section_mismatches", [])
+    if sm:
+        res.add_broken("K3(ii): %d recorded execution(s), replayed hold by hold as sections of Model/Conc.lean in commit order, do not reproduce "
+                       "the real table's answers / final full state (the code of a lock-hold no longer computes the section function the "
+                       "linearizability theorems are about)" % len(sm), json.dumps(sm[:2])[:6000])
     mine = [f for f in out["failures"] if pid in classify(f["why"])]
     seen = set()
     for f in mine:
@@ -186,6 +191,9 @@ def run(pid, tier, programs=None, phases=()):
         "traces_validated_against_model": out["traces"],
         "traces_rejected": len(out["rejects"]),
         "histories_decided_by_verified_checker": out.get("histories_checked_in_lean", 0),
+        "executions_replayed_as_section_schedules": out.get("section_replays", 0),
+        "sections_replayed": out.get("sections_replayed", 0),
+        "section_mismatches": len(sm),
         "oracle_disagreements": out.get("oracle_disagreements", [])[:3],
         "oracle_failures": len(out["failures"]),
         "per_program": out["per_program"],
